@@ -201,6 +201,8 @@ def judge_ref(layout_name, pw):
         "copy+aes-c4": {"folders": [[0, 1, 2]], "chains": [[("COPY", {}), ("AES", {})]], "aes": {"cycles": 4, "salt": b"", "iv": bytes(range(1, 9))}},
         "lzma2+aes-c0-salt": {"folders": [[0], [1, 2]], "chains": [[("LZMA2", {}), ("AES", {})]] * 2, "aes": {"cycles": 0, "salt": b"NaCl", "iv": bytes(range(1, 17))}},
         "aes-header-c4": {"folders": [[0, 1, 2]], "chains": [[("COPY", {}), ("AES", {})]], "header": "lzma2+aes", "aes": {"cycles": 4, "salt": b"", "iv": bytes(range(2, 10))}},
+        # 7zAES as the ONLY coder, integrity carried by folder-level CRCs only (no per-file CRC section): the wrong key must still be noticed
+        "aes-only-foldercrc-c4": {"folders": [[0], [1, 2]], "chains": [[("AES", {})]] * 2, "crc": "folder", "aes": {"cycles": 4, "salt": b"", "iv": bytes(range(1, 9))}},
     }
     global MEMBERS
     MEMBERS = VARIANTS["str"]
@@ -260,7 +262,7 @@ def main(tier="quick", seed=0, only=None):
     pws = PASSWORDS if tier == "thorough" else PASSWORDS[:5]
     cases = list(itertools.product(cs, HEADER_MODES, pws, ["str"])) + list(itertools.product(cs, HEADER_MODES, pws[1:3] if tier == "quick" else pws, ["blocks", "file"]))
     tasks = [("written", c) for c in chunks(cases, 3)]
-    refs = list(itertools.product(["copy+aes-c4", "lzma2+aes-c0-salt", "aes-header-c4"], ["pässwörd", "a", "Tr0ub4dor&3"]))
+    refs = list(itertools.product(["copy+aes-c4", "lzma2+aes-c0-salt", "aes-header-c4", "aes-only-foldercrc-c4"], ["pässwörd", "a", "Tr0ub4dor&3"]))
     tasks += [("ref", [c]) for c in refs]
     with Pool() as pool:
         res = pool.map(f"{MODULE}:shard", tasks, soft=3000)
@@ -274,7 +276,7 @@ def main(tier="quick", seed=0, only=None):
             "encryption neither UTF-16LE nor UTF-8 names appear and a keyless parse names no member; two archives of the same input "
             "and password differ in every IV and every ciphertext block, no IV is zero; right password round-trips; absent password raises "
             "PasswordRequired and creates no product; 4 wrong-password classes (different, prefix, case-changed, +1 char) never return normally. "
-            "Plus 9 reference-written archives (2^0 / 2^4 KDF rounds, salt, 8/16-byte IV, AES header) attacked with EVERY single-edit "
+            "Plus 12 reference-written archives (2^0 / 2^4 KDF rounds, salt, 8/16-byte IV, AES header, 7zAES as the only coder with folder-level CRCs only) attacked with EVERY single-edit "
             "neighbour (insertion, deletion, substitution, case flip) of the password. evaluations include the wrong-password attempts."
         ),
         assumptions=["the 7zAES key derivation of py7zr is memoised; ref7z uses its own KDF", "AES/SHA-256 primitives (Cryptodome, hashlib) are trusted"],
